@@ -305,6 +305,17 @@ Print Assumptions C17_default_paths.
 
 (* component names are proto identifiers: ToCamel yields letters and digits only and, for an
    identifier starting with a letter, starts with a capital *)
+(* the same for every declaration in the quantifier without a baseUrlPath override: the clean-path
+   fact, the ':'-free package and the identifier keys are DERIVED from the quantifier, and the base is
+   spelled out: /<package with '/' for '.'>/<ToSnake(name)>/q *)
+Theorem C17_default_paths_quantified : forall e, e_base_url e = [] -> in_quantifier e = true ->
+  nth 0 (query_paths e) [] = query_base e ++ flat_map (fun u => 47 :: brace u) (get_keys e)
+  /\ nth 2 (query_paths e) [] =
+       query_base e ++ flat_map (fun u => 47 :: brace u) (get_keys e) ++ bs "/events"
+  /\ query_base e = [47] ++ map (fun c => if c =? 46 then 47 else c) (e_pkg e) ++ [47] ++ to_snake (e_name e) ++ bs "/q".
+Proof. exact default_paths_quantified. Qed.
+Print Assumptions C17_default_paths_quantified.
+
 Theorem C17_component_names_alnum : forall e suffix,
   forallb alnum (component_name e suffix) = true.
 Proof. exact component_names_alnum. Qed.
